@@ -50,3 +50,25 @@ Check (C07_invariant_step : forall st o, Inv st -> Inv (fst (step st o))).
 Check (C07_bound_b_correct : forall st, bound_b st = true <-> bound_to_incarnation st).
 Check (C07_monitor_model_clean :
   forall st ops, Inv st -> monitor st (combine ops (snd (run st ops))) = []).
+Check (C07_nothing_left_behind_all :
+  forall st ops, Inv st -> nothing_left_behind (exec st ops)).
+Check (C07_tight_b_correct : forall st, tight_b st = true <-> nothing_left_behind st).
+Check (C07_left_behind_free_bound :
+  forall st, nothing_left_behind st ->
+    (forall s, In s (st_sess st) -> usable s = true -> sess_bound st s) /\
+    (forall r, In r (st_recs st) -> rec_bound (st_fabs st) r) /\
+    (forall u, In u (st_subs st) -> sub_bound (st_fabs st) u)).
+Check (C07_removal_purges_slots :
+  forall st sid i st', step st (ORemove sid i) = (st', StOk) ->
+    forall x, In x (st_sess st') -> s_fab x = i -> s_exp x = true).
+Check (C07_rollback_purges_slots :
+  forall st o i fl, Inv st -> is_expiry o = true -> st_fs st = Armed i fl -> i <> 0 ->
+    fget i (st_kvfabs st) = None -> snd (step st o) = StOk ->
+    forall x, In x (st_sess (fst (step st o))) -> s_fab x = i -> s_exp x = true).
+Check (C07_finish_after_removal_void :
+  forall st sid, sget sid (st_sess st) = None ->
+    step st (OFinishFull sid) = (st, StGone) /\ step st (OFinishResume sid) = (st, StGone)).
+Check (C07_finish_only_live :
+  forall st sid st', Inv st -> step st (OFinishResume sid) = (st', StOk) ->
+    exists s f, sget sid (st_sess st) = Some s /\ s_res s = true /\
+                fget (s_fab s) (st_fabs st) = Some f /\ f_inc f = s_inc s).
